@@ -56,7 +56,7 @@ func verifHistory(writeThrough bool) {
 		}
 	}
 
-	steps := verif.Bound("steps", 2, 3)
+	steps := verif.Bound("steps", 2, 4)
 	for st := 0; st < steps; st++ {
 		i := verif.Choice("tag", len(verifTags))
 		if verif.Choice("op", 2) == 0 {
